@@ -15,21 +15,21 @@ COMMON_NOTE = ('Trusted: Lean 4.33 kernel with axioms propext/Classical.choice/Q
 CLAIMS = {
     'C01': ('Lean 4 theorems on the regenerated model: per module `is_valid = (validate returned a non-empty value)` (case analysis), `validate` raises only ValidationError subclasses and returns a non-empty string (Std.Do mvcgen verification conditions + lemma library); differential run; failing-input search incl. non-strings',
             'Proof per module listed in obligations/C01.json, over all strings, all option values and all dates, on definitions regenerated from the current '
-            'source: family C01v (is_valid/validate agreement) for 191 modules, C01c (no foreign exception) and C01n (non-empty result) for the modules whose '
+            'source: family C01v (is_valid/validate agreement), C01c (no foreign exception) and C01n (non-empty result) for the modules whose '
             'verification conditions the tactic closes (listed; the others are covered by the search only). Non-string arguments are outside the model '
             '(search only).', '§4 C01, §8', ''),
     'C04': ('Lean 4 theorems on the regenerated model (per module: compact x = compact y -> format x = format y); differential run; failing-input search',
-            'Proof of the presentation-independence half of C04 for the 96 modules listed in obligations/C04.json (all strings, all format options); '
+            'Proof of the presentation-independence half of C04 for the modules listed in obligations/C04.json (all strings, all format options); '
             'that format(x) is accepted with the same identity is covered by the search only (stated as partial).', '§4 C04, §8', ''),
-    'C13': ('Lean 4 theorems on a hand-written state-machine model (sequential histories, arbitrary thread interleavings, heap non-interference of _find), runtime exploration of the real library (histories, container mutation, 2-16 threads, fresh-process references)',
-            'Proof for the model Spec.State (every finite history, every schedule and thread count); the tie to the implementation is the runtime exploration '
+    'C13': ('Lean 4 theorems on a hand-written state-machine model (sequential histories, arbitrary thread interleavings, heap non-interference of _find) and on the generated state-passing twins of the three memoising lookups (warm = cold for every cache content satisfying the invariant, hence for every history; Props/C13w), runtime exploration of the real library (histories, container mutation, 2-16 threads, fresh-process references)',
+            'Proof for the model Spec.State (every finite history, every schedule and thread count) and for the regenerated `_get_cc_module__warm` functions (tie: tools/corr/warm.py with arbitrary cache contents); the tie of Spec.State to the implementation is the runtime exploration '
             'tools/search/c13.py, which compares every call with a fresh process. CPython import-lock behaviour during concurrent first imports cannot be '
             'exhibited by the model (named partial; one such defect is a known finding).', '§4 C13, §8', ''),
     'C03': ('Lean 4 theorems on the regenerated model (one per module: compact x = compact y -> validate x = validate y), differential model/CPython run, failing-input search',
             'Proof for every module whose theorem is listed in obligations/C03.json (statement over all pairs of strings and all option values, on the '
             'definition regenerated from the current source); the wrappers whose validate() cleans differently from compact() are covered by '
             'the search only and listed as uncovered in the evidence.', '§4 C03', ''),
-    'C05': ('Lean 4 theorems on the regenerated model (generator = check character of every accepted number; uniqueness; completion of a payload validates) for ean, issn, isbn-10, imei, aadhaar, grid, isni; differential run; failing-input search over ~100 generator modules',
+    'C05': ('Lean 4 theorems on the regenerated model (generator = check character of every accepted number; uniqueness; completion of a payload validates) for ean, issn, isbn-10, imei, aadhaar, grid, isni, iban (hand proofs) and, as generated family C05g, `validate x = ok v -> generator(payload v) = check part of v` for every module whose validate compares a generated check character; differential run; failing-input search over ~100 generator modules',
             'Proof for the formats listed in obligations/C05.json (all accepted numbers / all well-formed payloads, unbounded where the format is); the other generator modules are '
             'covered by the search only (listed as uncovered).', '§4 C05, §8', ''),
     'C07': ('Lean 4 theorems on the regenerated model: validate = declarative predicate written from the published rule (Spec.Standards) for every string, for the formats proved so far; the Lean predicates are cross-checked against an independent Python transcription; failing-input search incl. exhaustive small spaces',
@@ -38,7 +38,7 @@ CLAIMS = {
     'C16': ('Lean 4 theorems on a hand-written model of gs1_128.py (info∘encode and validate fixed-point for every registry/validator environment and mappings of any size, under explicit well-formedness and six defect-excluding hypotheses; kernel-evaluated facts about the regenerated identifier table; negations of the full statements by kernel-evaluated witnesses), differential run, failing-input search',
             'Proof on the hand-written model Spec.GS1 (tie = tools/corr/gs1.py on every check, all 213 identifiers). The full statements are false of the code as it is (seven known defects, each with a '
             'proved witness and listed as a known finding); the proved theorems are the _partial versions whose hypotheses exclude exactly those cases.', '§4 C16, §8', ''),
-    'C17': ('Lean 4 theorems on the regenerated model (single substitution / adjacent transposition of an accepted number is rejected) for 17 formats via refinement to the generic algorithms and the abstract fold-detection theorem; differential run; exhaustive neighbourhood search',
+    'C17': ('Lean 4 theorems on the regenerated model (single substitution / adjacent transposition of an accepted number is rejected) for the formats listed in obligations/C17.json (ISBN/EAN/ISSN/ISMN/IMEI/ISNI/IBAN/LEI/ISO 11649/GRid and 30 national numbers) via refinement to the generic algorithms and the abstract fold-detection theorem; full statements that are false of the code have a kernel-checked negation and a _partial theorem; differential run; exhaustive neighbourhood search',
             'Proof for the formats listed in obligations/C17.json (every accepted number, every position, every same-class replacement); three ISBN-13/ISMN statements carry an extra ASCII-digit '
             'hypothesis (named _partial). Other listed formats: search only.', '§4 C17, §8', ''),
     'C06': ('Lean 4 theorems (abstract fold detection theorem + instances, unbounded length, all even Luhn bases) on a hand-written model tied to the code by a differential run; failing-input search',
@@ -59,7 +59,7 @@ CLAIMS = {
             'Proof on the hand-written model Spec.Wsgi; tie = tools/corr/wsgi.py (escape, template formatting, format(), application end-to-end with '
             'synthetic module tables). parse_qs and the WSGI server are outside the model (named partial).', '§4 C18', ''),
     'C02': ('Lean 4 theorems on the regenerated model (per module, partial-correctness Hoare triple closed by the VC tactic: validate x = ok v -> validate v = ok v, and v has no outer whitespace), differential run, failing-input search re-feeding every accepted output under every option',
-            'Proof for the modules listed in obligations/C02.json (family C02f; all strings, all option values, all dates) on definitions regenerated from the current source; '
+            'Proof for the modules listed in obligations/C02.json (families C02f and C02i; all strings, all option values, all dates) on definitions regenerated from the current source; '
             'the remaining modules (listed as uncovered in the evidence) are covered by the search only; twelve call sites where the statement is false of the code are known findings.', '§4 C02, §8', ''),
     'C09': ('Lean 4 theorems on the regenerated wrappers (eu.vat = member validator through the tabulated dispatch for all 31 prefixes and every string, guess_country/guess_type = filter of the table, us.tin/th.tin/be.ssn = first-match union, es.nif superset, iban = generic rules and national module) with kernel-evaluated dispatch tables; differential run; failing-input search per (wrapper, constituent) relation',
             'Proof for the relations listed in obligations/C09.json, all strings, on definitions regenerated from the current source (get_cc_module is tabulated from the running interpreter on every run). '
@@ -71,6 +71,9 @@ CLAIMS = {
     'C15': ('Lean 4 theorems on the regenerated model (per module, partial-correctness Hoare triple closed by the VC tactic: validate x = ok v -> every character of v is ASCII), differential run, failing-input search substituting every foreign digit/letter class at every position',
             'Proof for the modules listed in obligations/C15.json (family C15a; all strings, all option values, all dates) on definitions regenerated from the current source; '
             'the other identifier modules are covered by the search only (listed as uncovered); three call sites are known findings.', '§4 C15, §8', ''),
+    'C12': ('Lean 4 theorems on the regenerated model (generated family C12g, one per (module, getter): validate v = ok v -> the getter returns a value or raises a ValidationError, Hoare triple closed by the VC tactic with validate\'s gates as hypotheses), differential run of every getter, failing-input search on valid numbers incl. synthesised edge dates and unknown registry prefixes',
+            'Proof of the totality half of C12 (no exception outside the ValidationError hierarchy on every accepted number, all dates) for the (module, getter) pairs listed in obligations/C12.json on definitions regenerated from the current source; '
+            'the value-consistency half (date agrees with digits, gender in {M,F}, split parts concatenate) and the remaining getters are covered by the search only (listed as uncovered). Four call sites where the statement is false of the code are known findings.', '§4 C12, §8', ''),
 }
 
 REASON_PENDING = 'check not yet registered (build in progress: machinery exists under tools/ but is not yet free of open triage on the unchanged tree)'
